@@ -259,7 +259,7 @@ def extract_ssatape(repo, trace):
 
 
 # partition groups (labels refer to SP.ARMS for op_reg_reg_k, SSA variant names for the dispatch tables)
-K_GROUPS = [['A', 'B', 'C'], ['D', 'E'], ['F', 'G', 'H'], ['I', 'J', 'K']]
+K_GROUPS = [['A', 'B', 'C'], ['D'], ['E'], ['F', 'G', 'H'], ['I', 'J', 'K']]
 
 
 def chunks(xs, n):
